@@ -154,7 +154,7 @@ CHECKS = {
     "C14": dict(
         text="Theorem over the reconstruct_volumes state machine (last_filename / curr_volume / slice_counter / volume_size) for every sequence of volumes delivered as non-empty batches of consecutive slices, any names, items and per-slice function: "
              "exactly one output per volume, in order, k-th slice = processed output of the k-th slice; composed with the chunking of the volume batch sampler the result is independent of the batch size. "
-             "The body of the batch loop is regenerated from the source on every run as a statement list (guards incl. elif / else, slice assignment into a buffer of volume_size slots, yield); one iteration of it is proved, for every state, file name and batch, to be the same state transformer as one iteration of a reference body, which is proved to refine that state machine for every sequence of batches (a raise in one is a raise in the other). "
+             "The body of the batch loop is regenerated from the source on every run as a statement list (guards incl. elif / else, slice assignment into a buffer of volume_size slots, yield); one iteration of it is proved, for every state, file name and batch, to be the same state transformer as one iteration of a reference body, which is proved to refine that state machine for every sequence of batches (a raise in one is a raise in the other); composed: on the batches of the volume batch sampler, for any batch size, the regenerated loop yields every volume once, in order, completely filled. "
              "The state machine is also tied to the code by exact correspondence through the real Engine.predict -> reconstruct_volumes -> _process_output with a marker model (per-slice scaling factors, header crop, world/rank, 0-2 workers).",
         note=PROOF_NOTE + "The statements computing a batch's output are abstracted to a per-slice function (validated by the correspondence). Modelled, not verified: DataLoader ordering with workers, default collate, per-sample action of _process_output (validated by pixel checks), C13 for the batches.",
         technique="Coq proof (induction over volumes and batches of the bookkeeping state machine; refinement of it by the loop body regenerated from the source, tied by a per-iteration equivalence proved for every state) + exact correspondence through the real predict loop",
